@@ -48,6 +48,9 @@ type program struct {
 	// seedFull: start from a stored state with one full, rotated-out directory (100 files, keys
 	// s000…s099; program key "z" is s000) and a second directory holding one file
 	seedFull bool
+	// writerAnnounce: model the writer preference of sync.RWMutex (a pending writer blocks new readers):
+	// needed to see deadlocks of recursive read locking; costs one more point per write lock
+	writerAnnounce bool
 }
 
 func parseSteps(s string) []step {
@@ -88,6 +91,8 @@ func parse(p string) *program {
 				fmt.Sscan(kv[2:], &pr.roots)
 			case kv == "seed=full":
 				pr.seedFull = true
+			case kv == "wa=1":
+				pr.writerAnnounce = true
 			}
 		}
 		p = p[:i]
@@ -139,11 +144,11 @@ func (r *recorder) tick() int64 { r.clock++; return r.clock }
 func (r *recorder) add(o lin.Op) { r.ops = append(r.ops, o) }
 
 type run struct {
-	pr   *program
-	in   *dbh.Inst
-	rec  *recorder
-	tx   []fs_db.Tx
-	ctx  context.Context
+	pr     *program
+	in     *dbh.Inst
+	rec    *recorder
+	tx     []fs_db.Tx
+	ctx    context.Context
 	lenArr [1024]int
 }
 
@@ -622,7 +627,7 @@ func init() {
 		pr := parse(p)
 		return &conc.Scenario{
 			Witness: witness,
-			Options: func(o *vrt.Options) { o.LongTimer = dbh.GCPeriod / 2 },
+			Options: func(o *vrt.Options) { o.LongTimer = dbh.GCPeriod / 2; o.WriterAnnounce = pr.writerAnnounce },
 			Body:    pr.body,
 			Kind: func(v string) string {
 				k := kindOf(v)
